@@ -460,7 +460,10 @@ Section XMachine.
         let lab := st (KLoadPtr false) in
         match hn with
         | HGrow => Some (goto s t (PR_Stat HGrow kt tab) [lab])
-        | HShrink => Some (goto s t (PR_ShSum kt tab 0 0%Z) [lab])
+        | HShrink =>
+            (* tableLen > m.minTableLen && table.sumSize() <= ...: the sum is not taken at the minimum length *)
+            if Nat.ltb minlen (x_len (tab_at s tab)) then Some (goto s t (PR_ShSum kt tab 0 0%Z) [lab])
+            else Some (goto s t (PR_FinLock kt) [lab])
         | HClear =>
             let new := length (g_tabs s) in
             Some (goto (push_tab s (new_xtable minlen (seeds new))) t (PR_Publish kt new) [lab])
